@@ -323,7 +323,12 @@ def _its_fail_chunk(cases):
         def run(seq, skip, options=()):
             log = []
             answers = [False, True] * (len(seq) + 2)
-            solver = it.instantiate(ClassRef(PROBE_MOD + ".RefusingProbeSolver"), [w.env, logic, log, answers, [d], 2, [e]], dict(options))
+            options = dict(options)
+            # reading `assertions` performs a pending pop: in this mode the list is read after the last call only
+            end_only = options.pop("read the assertions at the end only", False)
+            solver = it.instantiate(ClassRef(PROBE_MOD + ".RefusingProbeSolver"), [w.env, logic, log, answers, [d], 2, [e]], options)
+            n_eff = len([x for x in seq if not (x in ("XA", "XP", "XQ", "XU") and skip)])
+            k_eff = 0
             outs = []
             for x in seq:
                 if x in ("XA", "XP", "XQ", "XU") and skip:
@@ -344,6 +349,8 @@ def _its_fail_chunk(cases):
                         r = it.call(it.getattr(solver, "is_sat"), [c])
                     elif x == "V":
                         r = it.call(it.getattr(solver, "is_valid"), [c])
+                    elif x == "U":
+                        r = it.call(it.getattr(solver, "is_unsat"), [c])
                     elif x in ("XQ", "XU"):
                         r = it.call(it.getattr(solver, "is_sat"), [d if x == "XQ" else e])
                     elif x == "LC":
@@ -353,9 +360,13 @@ def _its_fail_chunk(cases):
                     out = ("returns", r)
                 except AbsRaise as ex:
                     out = ("raises", ex.cls_name)
+                k_eff += 1
                 if x in ("XA", "XP", "XQ", "XU"):
                     if out[0] != "raises":
                         outs.append((x, ("the refused call", out)))
+                    continue
+                if end_only and k_eff < n_eff:
+                    outs.append((x, out))
                     continue
                 try:
                     live = [id(g) for g in it.iterate(it.getattr(solver, "assertions"))]
@@ -416,6 +427,11 @@ def its_failure_results(repo, tier="quick"):
         cases += [(("XQ",), ("Q",), ni), (("XQ",), ("V",), ni), (("XQ", "XQ"), ("Q", "LR"), ni), (("A", "XQ"), ("Q",), ni), (("XQ",), ("S",), ni),
                   (("XA",), ("Q",), ni), (("A", "XA"), ("B", "Q"), ni), (("XQ",), ("Q",), (("generate_models", False),)),
                   (("P", "A", "XQ", "O"), ("Q", "S"), (("generate_models", False),))]
+        eo = (("read the assertions at the end only", True),)
+        cases += [(h, t, eo) for h in [("Q", "XA"), ("P", "A", "Q", "XA"), ("A", "P", "B", "U_", "XA"), ("P", "A", "Q", "XP"), ("Q", "XQ"), ("P", "A", "Q", "XU")]
+                  for t in [("S",), ("B", "S"), ("O_",), ("P", "B", "O", "S")]]
+        cases = [c for c in cases if not (c[1] == ("O_",) and "P" not in c[0])]
+        cases = [(tuple("U" if x == "U_" else x for x in c[0]), tuple("O" if x == "O_" else x for x in c[1])) + tuple(c[2:]) for c in cases]
         if tier == "thorough":
             cases += [(h1 + h2, t) for h1 in ITS_F_HEADS[:5] for h2 in ITS_F_HEADS[:5] for t in ITS_F_TAILS]
             cases += [(h, t1 + t2) for h in ITS_F_HEADS for t1 in ITS_F_TAILS for t2 in ITS_F_TAILS[1:4]]
@@ -1511,14 +1527,14 @@ def _script_chunk(seqs):
     return res[0].detail
 
 
-E_ALPHABET = ["A", "B", "P", "P2", "O", "O2", "R", "C"]
+E_ALPHABET = ["A", "B", "P", "P2", "P0", "O", "O2", "O0", "R", "C"]
 
 
 def e_sequences(max_len):
     out = []
     for n in range(1, max_len + 1):
         for seq in itertools.product(E_ALPHABET, repeat=n):
-            if s_legal(tuple(x for x in seq if x != "C")) and (seq[-1] == "C" or "R" in seq):
+            if s_legal(tuple(x for x in seq if x != "C")) and (seq[-1] == "C" or "R" in seq or "O0" in seq or "P0" in seq):
                 out.append(seq)
     out += [("A", "P", "B", "C", "R", "C"), ("P", "A", "R", "B", "C"), ("A", "C", "P2", "B", "O", "C", "R", "A", "C"), ("A", "R", "R", "C"),
             ("P2", "A", "O", "B", "O", "C"), ("A", "P", "R", "P", "B", "O", "C")]
@@ -1545,10 +1561,10 @@ def _eval_chunk(seqs):
                 for st in seq:
                     if st in ("A", "B"):
                         it.call(it.getattr(script, "add"), ["assert", [forms[st]]])
-                    elif st in ("P", "P2"):
-                        it.call(it.getattr(script, "add"), ["push", [1 if st == "P" else 2]])
-                    elif st in ("O", "O2"):
-                        it.call(it.getattr(script, "add"), ["pop", [1 if st == "O" else 2]])
+                    elif st in ("P", "P2", "P0"):
+                        it.call(it.getattr(script, "add"), ["push", [{"P": 1, "P2": 2, "P0": 0}[st]]])
+                    elif st in ("O", "O2", "O0"):
+                        it.call(it.getattr(script, "add"), ["pop", [{"O": 1, "O2": 2, "O0": 0}[st]]])
                     elif st == "R":
                         it.call(it.getattr(script, "add"), ["reset-assertions", []])
                     else:
@@ -1600,7 +1616,8 @@ def _eval_chunk(seqs):
     return res[0].detail
 
 
-E_NAMES = {"A": "assert a", "B": "assert b", "P": "push 1", "P2": "push 2", "O": "pop 1", "O2": "pop 2", "R": "reset-assertions", "C": "check-sat"}
+E_NAMES = {"A": "assert a", "B": "assert b", "P": "push 1", "P2": "push 2", "P0": "push 0", "O": "pop 1", "O2": "pop 2", "O0": "pop 0", "R": "reset-assertions",
+           "C": "check-sat"}
 _ECACHE = {}
 
 
@@ -1608,7 +1625,7 @@ def script_eval_results(repo, tier="quick"):
     key = (repo.root, tier)
     if key not in _ECACHE:
         seqs = e_sequences(4 if tier == "quick" else 5)
-        chunks = [seqs[i:i + 40] for i in range(0, len(seqs), 40)]
+        chunks = [seqs[i:i + 60] for i in range(0, len(seqs), 60)]
         _eval_chunk(seqs[:2])
         out = []
         for r in parallel_map(_eval_chunk, chunks):
